@@ -197,6 +197,10 @@ def wrap_context(rng, core, layers):
 
 def gen_combine(rng):
     """trees around the three shapes `leave_BooleanOperation` matches (and near misses), in operator contexts"""
+    # arguments that are names take part too (never de-duplicated, whatever a literal next to them says): `pfx` and `'pfx'`
+    pats = PATS + ["pfx", "'pfx'", "pfx", "'a'"]
+    def _call(rng):
+        return {"k": "call", "r": rng.choice(RECV + ["s", "s"]), "ps": [rng.choice(pats) for _ in range(rng.choice([1, 1, 2]))], "p": rng.random() < 0.1}
     k = rng.choice(["and", "or", "or"])
     x = gen(rng, rng.randint(0, 1), calls=0.3)
     core = rng.choice([
